@@ -371,11 +371,13 @@ def strides(facts, res):
             for x in walk(root):
                 if x.get("k") == "BinaryOperator" and x.get("op") == "/" and any(y.get("k") == "UnaryExprOrTypeTraitExpr" or "sizeof" in (facts.ntext(y) or "")[:8] for y in walk(kids(x)[1])):
                     num = facts.ntext(kids(x)[0])
-                    if re.search(r"Alignement|GetLeadingDim|leadingDim", num):
+                    # (a leading dimension divided by sizeof(T) is exact: the kinds static_assert that sizeof(T) divides the alignment or
+                    # is a multiple of it, and the leading dimension is the byte size of the row rounded up to the alignment)
+                    if re.search(r"Alignement", num) and not re.search(r"GetLeadingDim|leadingDim", num):
                         trunc.append((fn_, x))
         for fn_, x in trunc[:1]:
             res.violation(R, tbf.rel(facts.path_of(x)), fn_["qname"], kind + ":stride-in-elements", x["l"][1],
-                          "`%s` turns a byte stride / the alignment into a number of elements by integer division: for an element type whose size does not divide it (larger than the alignment: the quotient is 0) the rows of the block alias each other and the viewers no longer address what GetMemorySizeFromNbItems laid out" % facts.ntext(x)[:70])
+                          "`%s` turns the alignment into a number of elements by integer division: the block kinds accept element types whose size is a multiple of the alignment, for which the quotient is 0 - a stride built from it makes the rows of the block alias each other and the viewers no longer address what GetMemorySizeFromNbItems laid out" % facts.ntext(x)[:70])
         if len(calls) < want_calls and not trunc:
             raise AnalysisBroken("%s: %d GetLeadingDim sites found (%d confirmed by reading)" % (kind, len(calls), want_calls))
         # every place that multiplies by leadingDim uses the row (resp. item) index
